@@ -275,7 +275,15 @@ def _pv(model, res, E):
     for o in outs:
         if o.imprecise or o.kind != 'return' or o.value.tag == 'err':
             continue
-        zero_rate = any(isinstance(s, Atom) and ((s.op == 'eq' and alt is True) or (s.op == 'ne' and alt is False)) for (t, alt, s) in o.notes)
+        def about_rate(s_):
+            # the decision  r == 0  (either way round); a test of anything else (e.g. (1+r)**n == 1) does not make the rate zero
+            if not (isinstance(s_, Atom) and len(s_.args) == 2):
+                return False
+            a_, b_ = s_.args
+            if isinstance(a_, Const):
+                a_, b_ = b_, a_
+            return isinstance(a_, Sym) and a_.name == 'r' and isinstance(b_, Const) and b_.value == 0 and not isinstance(b_.value, bool)
+        zero_rate = any(about_rate(s) and ((s.op == 'eq' and alt is True) or (s.op == 'ne' and alt is False)) for (t, alt, s) in o.notes)
         try:
             pv = PF.ratform(o.value)
         except PF.NotPolynomial as e:
